@@ -245,8 +245,11 @@ def framing(repo: Repo, chk: Check, rule: str) -> None:
             okt = bool(tr) and fixed_tr is not None and tr[0].lo == frag - (auth + fixed_tr) and tr[0].hi == frag
             chk.ob(rule, Site.of(f, tr[0].node if tr else None, None if tr else "PDU.unpack: trailer"), okt, "security trailer = last auth_len + 8 bytes of the fragment" if okt else f"security trailer window is [{tr[0].lo!r}:{tr[0].hi!r}]" if tr else "no security trailer decoded although auth_len != 0")
         key = call[0].node.func
-        keytxt = unparse(key.slice) if isinstance(key, ast.Subscript) else ""
-        chk.ob(rule, site, keytxt.endswith("header.packet_type"), "dispatch on header.packet_type" if keytxt.endswith("header.packet_type") else f"dispatch key is {keytxt}")
+        from .util import prov_text
+
+        keytxt = prov_text(f, key.slice, key) if isinstance(key, ast.Subscript) else ""
+        okk = keytxt.endswith(".packet_type") and "PDUHeader.unpack(" in keytxt and keytxt.index("PDUHeader.unpack(") == 0
+        chk.ob(rule, site, okk, "dispatch on the packet_type of the decoded header" if okk else f"dispatch key is {keytxt}")
         passed = [call[0].arg(1), call[0].arg(2)]
         okp = getattr(passed[0], "rid", None) == hdr[0].rid
         chk.ob(rule, site, okp, "decoded header handed to the body decoder" if okp else f"body decoder receives {passed[0]!r} as header")
